@@ -52,8 +52,12 @@ class ExprMixin:
         if isinstance(obj, (types.BuiltinFunctionType, types.BuiltinMethodType)):
             mod = getattr(obj, '__module__', None) or 'builtins'
             return VFunc('ext', name='%s.%s' % (mod, obj.__qualname__), bound=None)
-        # instances of repo classes used as module level constants (e.g. TransportTuning())
-        self.unsupported(node, 'cannot lift python object %r' % (obj,))
+        # other module-level singletons (sentinels, default instances): an opaque object identified by its name
+        key = 'singleton:%s:%s' % (type(obj).__module__, getattr(obj, '_name', None) or type(obj).__qualname__)
+        tab = self.__dict__.setdefault('_singletons', {})
+        if id(obj) not in tab:
+            tab[id(obj)] = VRef(z3.IntVal(-(len(tab) + 1)), None)     # negative references never collide with allocated objects
+        return tab[id(obj)]
 
     def truth(self, st, v):
         if isinstance(v, VBool):
